@@ -16,6 +16,7 @@ func propC08(w *World, r *Report) {
 	e := NewEffects(w)
 	runDet(w, r, e, "C08")
 	RunSizeAgree(w, r, func(p string) bool { return strings.Contains(p, "/opentype/") })
+	RunSizeControls(r)
 	RunTwinFormula(w, r, func(p string) bool { return strings.Contains(p, "/opentype/") })
 	var enc []*ssaFn
 	for _, f := range w.LibFuncs() {
